@@ -186,6 +186,9 @@ inductive ElemKindN (ft : Feat) (Γ : Ctx) (m : XmlMeta) (var : XmlVar) : Prop
   | union (hc : var.clazz = none) (hp : primTypeOf var = none) (hu : primUnionOf var = true)
       (hi : var.init = true) (htk : var.tokens = false) (hn : var.nillable = false)
       (hd : if var.listElement then var.default = .listFactory else var.default = .none)
+  | qname (hc : var.clazz = none) (hp : primTypeOf var = none) (ht : var.types = [.prim .qname])
+      (hi : var.init = true) (htk : var.tokens = false) (hn : var.nillable = false)
+      (hd : if var.listElement then var.default = .listFactory else var.default = .none)
 
 theorem elemFactsN_of {ft : Feat} {Γ : Ctx} {m : XmlMeta} {ci : ClassInfo} {var : XmlVar}
     (MF : MetaFactsN ft Γ ci m) (hmem : var ∈ m.elementVars)
@@ -248,10 +251,13 @@ theorem elemFactsN_of {ft : Feat} {Γ : Ctx} {m : XmlMeta} {ci : ClassInfo} {var
       rw [hcl] at hkind
       cases hpt : primTypeOf var with
       | none =>
-        simp only [hpt, Bool.and_eq_true, Bool.not_eq_true'] at hkind
-        obtain ⟨⟨⟨⟨⟨_, hu⟩, hi⟩, htk⟩, hn⟩, hd⟩ := hkind
-        refine ElemKindN.union hcl hpt hu hi htk hn ?_
-        split at hd <;> simp_all
+        simp only [hpt, Bool.and_eq_true, Bool.not_eq_true', Bool.or_eq_true, decide_eq_true_eq] at hkind
+        obtain ⟨⟨⟨⟨hk, hi⟩, htk⟩, hn⟩, hd⟩ := hkind
+        have hd' : if var.listElement then var.default = .listFactory else var.default = .none := by
+          split at hd <;> simp_all
+        rcases hk with ⟨_, hu⟩ | ⟨_, hq⟩
+        · exact ElemKindN.union hcl hpt hu hi htk hn hd'
+        · exact ElemKindN.qname hcl hpt hq hi htk hn hd'
       | some t =>
         obtain ⟨htp, _⟩ := primTypeOf_some hpt
         simp only [hpt] at hkind
